@@ -86,23 +86,25 @@ func c20KillLeakedHooks() int {
 }
 
 // c20CloseBounded runs closeFn (which waits for the command pool); if it does not return within grace the
-// leaked hook commands are killed so that it can. Returns the number of commands that had to be killed.
-func c20CloseBounded(closeFn func(), grace time.Duration) int {
+// leaked hook commands are killed so that it can. A leaked command with restart enabled is started again
+// and again by its (leaked) supervisor, so after a few rounds the harness gives up waiting: the verdict
+// comes from the log, which is complete as soon as the paths / servers are closed.
+func c20CloseBounded(closeFn func(), grace time.Duration) (killed int, closed bool) {
 	done := make(chan struct{})
 	go func() {
 		closeFn()
 		close(done)
 	}()
-	killed := 0
-	for {
+	for round := 0; round < 4; round++ {
 		select {
 		case <-done:
-			return killed
+			return killed, true
 		case <-time.After(grace):
 			killed += c20KillLeakedHooks()
 			grace = 2 * time.Second
 		}
 	}
+	return killed, false
 }
 
 // pair indexes
@@ -373,6 +375,7 @@ func (p *c20PathM) streamAvailable() bool {
 func TestVerifC20PathPairs(t *testing.T) {
 	rec := kit.R("TestVerifC20PathPairs")
 	t.Cleanup(kit.Flush)
+	t.Cleanup(func() { c20KillLeakedHooks() })
 
 	rapid.Check(t, func(t *rapid.T) {
 		// ---- configuration of the case
